@@ -32,3 +32,51 @@ Definition c06_shape (spec got : text) : N :=
   else if c06_spurious_dot_with_host spec got then 5
   else if c06_lone_slash spec got then 12
   else 0.
+
+(* ---- C08 / C09: normalization.  [u] is the text before, [spec] the specified normal form,
+        [got] the text obtained. ------------------------------------------------------------- *)
+Definition same_but_path (a b : five) : bool :=
+  match f_scheme a, f_scheme b with Some x, Some y => text_eqb x y | None, None => true | _, _ => false end
+  && match f_auth a, f_auth b with Some x, Some y => text_eqb x y | None, None => true | _, _ => false end
+  && match f_query a, f_query b with Some x, Some y => text_eqb x y | None, None => true | _, _ => false end
+  && match f_frag a, f_frag b with Some x, Some y => text_eqb x y | None, None => true | _, _ => false end.
+
+(* D7a: a relative-path reference whose dot segments cancel completely becomes the empty path *)
+Definition c08_rel_cancels (u spec got : text) : bool :=
+  let s := five_of_text spec in let g := five_of_text got in
+  rel_path_ref (five_of_text u) && same_but_path s g
+  && text_eqb (f_path s) [46; 47] && match f_path g with [] => true | _ => false end.
+(* D7b: cancellation exposes a first segment containing ':' (read back as a scheme) *)
+Definition c08_rel_exposes_colon (u spec got : text) : bool :=
+  let s := five_of_text spec in
+  rel_path_ref (five_of_text u) && starts_with [46; 47] (f_path s)
+  && text_eqb (recompose (mkFive (f_scheme s) (f_auth s) (skipn 2 (f_path s)) (f_query s) (f_frag s))) got
+  && Normal.has_colon (fst (span_until [47] (skipn 2 (f_path s)))).
+(* D7c: cancellation exposes an empty first segment (the relative path becomes absolute) *)
+Definition c08_rel_exposes_empty (u spec got : text) : bool :=
+  let s := five_of_text spec in
+  rel_path_ref (five_of_text u) && starts_with [46; 47; 47] (f_path s)
+  && text_eqb (recompose (mkFive (f_scheme s) (f_auth s) (skipn 2 (f_path s)) (f_query s) (f_frag s))) got.
+(* D3: the hex digits of a percent-encoding that stays encoded in a registered name are lower-cased *)
+Definition c08_host_triplet_case (u spec got : text) : bool :=
+  let s := five_of_text spec in let g := five_of_text got in
+  negb (text_eqb spec got)
+  && match f_auth s, f_auth g with
+     | Some x, Some y => text_eqb (map lower x) (map lower y) && existsb (fun c => c =? 37) x
+     | _, _ => false
+     end
+  && text_eqb (recompose (mkFive (f_scheme g) (f_auth s) (f_path g) (f_query g) (f_frag g))) spec.
+
+Definition c08_shape (u spec got : text) : N :=
+  if c08_rel_cancels u spec got then 71
+  else if c08_rel_exposes_empty u spec got then 73
+  else if c08_rel_exposes_colon u spec got then 72
+  else if c08_host_triplet_case u spec got then 3
+  else 0.
+
+(* C09: kind of a reference: 0 = has scheme or authority (presence compared separately),
+   1 = empty path, 2 = absolute path, 3 = relative path *)
+Definition ref_kind (t : text) : N * N * N :=
+  let f := five_of_text t in
+  ((if is_some_t (f_scheme f) then 1 else 0), (if is_some_t (f_auth f) then 1 else 0),
+   match f_path f with [] => 1 | _ => if head_is 47 (f_path f) then 2 else 3 end).
